@@ -13,7 +13,11 @@ THEOREMS = ['Tbox.C20.C20_weekly_earliest', 'Tbox.C20.C20_weekly_empty_mask', 'T
             'Tbox.C20.C20_world_callbacks_enabled', 'Tbox.C20.C20_once_per_instant', 'Tbox.C20.C20_refresh_in_early_callback_fixed', 'Tbox.C20.C20_world_targets_increase',
             'Tbox.C20.C20_refresh_in_early_callback_counterexample', 'Tbox.C20.C20_cron_earliest', 'Tbox.C20.C20_cron_none', 'Tbox.C20.C20_cron_horizon', 'Tbox.C20.C20_world_idle_not_served', 'Tbox.C20.C20_wall_step_not_seen_until_refresh',
             'Tbox.C20.C20_refresh_rebases_on_now', 'Tbox.C20.C20_expiry_without_next_instant_goes_idle', 'Tbox.C20.C20_cron_reinit_rejected_keeps_expression',
-            'Tbox.C20.wExec_inv']
+            'Tbox.C20.wExec_inv',
+            'Tbox.C20.C20_cparse_nonempty', 'Tbox.C20.C20_cnext_matches', 'Tbox.C20.C20_cdo_next_sound', 'Tbox.C20.C20_cnext_after', 'Tbox.C20.C20_cnext_sound', 'Tbox.C20.C20_cdo_next_forward',
+            'Tbox.C20.C20_tv_sec_width', 'Tbox.C20.C20_remain_seconds_width', 'Tbox.C20.C20_local_before_1970_counterexample',
+            'Tbox.C20.C20_end_of_range_counterexample', 'Tbox.C20.C20_init_rejects_out_of_range', 'Tbox.C20.C20_week_mask_string',
+            'Tbox.C20.C20_rearm_after_clock_jump']
 SOURCES = ['modules/alarm/alarm.cpp', 'modules/alarm/weekly_alarm.cpp', 'modules/alarm/oneshot_alarm.cpp',
            'modules/alarm/workday_alarm.cpp', 'modules/alarm/workday_calendar.cpp', 'modules/alarm/cron_alarm.cpp',
            'modules/alarm/3rd-party/ccronexpr.cpp'] + vlib.EVENT_SOURCES + vlib.BASE_SOURCES
@@ -30,24 +34,36 @@ TRUSTED = ['model lean/TboxModel/C20/Model.lean hand-written from modules/alarm/
            'the loop TimerEvent under the alarm is the C02 timer (one-shot, fires in the first pass with mono >= armed-at + delay); '
            'here it is one optional deadline per alarm',
            'virtual wall + monotonic clocks by libc interposition (harness/vtime.h); system time zone pinned to UTC+3 without DST (TZ=VRF-3; model sysOffset) for alarms without setTimezone()',
-           'cron alarm: CronAlarm delegates to the THIRD-PARTY evaluator ccronexpr (modules/alarm/3rd-party), which is not modelled; it is tied BY '
-           'CORRESPONDENCE ONLY to the independent reference lean/TboxModel/C20/Cron.lean (proved to return the declaratively earliest matching '
-           'instant) for expression shapes `sec min hour dom mon dow` built from lists, ranges, steps and *; day rule as ccronexpr implements it: '
-           'day-of-month AND weekday (both restricted => both must hold), Sunday = 0 or 7; names (JAN, SUN), ? and L/W/# are outside the tie',
+           'cron alarm: the third-party evaluator ccronexpr (modules/alarm/3rd-party) is TRANSCRIBED in lean/TboxModel/C20/CCron.lean: cron_parse_expr on the raw bytes '
+           '(split_str, strtol base 0, to_upper, replace_ordinals, get_range, set_number_hits, month rotation, Sunday 7 -> 0, ? -> *) and cron_next / do_next / find_next / '
+           'find_next_day with the resets list, the recursion and the year horizon over struct tm + timegm (CCal.lean; ccronexpr is built without CRON_USE_LOCAL_TIME: timegm / gmtime_r, '
+           'UTC, no TZ database - it only ever sees the alarm\'s local second count = UTC + explicit offset).  Proved: accepted => non-empty field sets; result matches every field '
+           'and is > t.  Tie on every run: acceptance and next instants as P lines, the six bit sets as M lines (op cx: raw strings incl. names, ?, hex/octal, inner white space, '
+           'every start alignment 0..7 in an exact-size heap block).  The driver ALSO compares the transcription with the independently proved-earliest reference '
+           'lean/TboxModel/C20/Cron.lean on every cron case (bit sets and next instant); a disagreement is reported as a broken correspondence (reject M).  Not carried: '
+           'malloc failure paths, timegm returning -1, cron_prev (never called).  L / W / # are not in this version of ccronexpr (rejected by both sides)',
+           'proleptic Gregorian calendar: civil_from_days / days_from_civil (H. Hinnant) with dfc (civil x) = x, civil (dfc y m 1) = (y, m, 1), month-start monotonicity proved in CalLaws.lean; '
+           'glibc timegm / gmtime_r are tied to them through every cron P line',
            'which of several due timers the loop serves first is taken from the implementation trace (trace acceptor, as C02)']
-ASSUMPTIONS = ['instants are at least 368 days before the end of the uint32 epoch range (2106-02-07): t + 368*86400 <= 2^32 (weekly: 9 days) — beyond it the '
-               'uint32 sums of the code wrap; the model wraps identically (checked by correspondence) but the theorems exclude it',
-               'local time start + offset >= 0 (no uint32 wrap below 1970 for negative time-zone offsets)',
-               'an alarm is not destroyed from inside its own callback (the code asserts against it)',
-               'cron: the reference reproduces ccronexpr\'s year horizon (CRON_MAX_YEARS_DIFF: the search gives up when a jump to the next allowed month '
-               'lands in a calendar year more than 4 after the start year) — beyond it "no instant" is the specified answer of both sides']
+ASSUMPTIONS = ['weekly / one-shot / workday arming theorems: the local computation stays below 2^32 (t + 9 d <= 2^32 weekly, t + 368 d workday, `InRange` for arming) - beyond it the uint32 sums of '
+               'the code wrap; the model wraps identically (checked by correspondence, families gen_width 0-1 and pick_t) and C20_end_of_range_counterexample states what then happens '
+               '(weekly/workday: "no instant", enable() fails; one-shot: wrapped target, delay still the true distance)',
+               'local time start + offset >= 0: for UTC in the first hours of 1970 with a negative zone the uint32 local start wraps and the armed instant is wrong '
+               '(C20_local_before_1970_counterexample; agreed by model and code, replayed in corpus/C20/14) - outside every practical clock, recorded as an observation',
+               'tv_sec is stored into a uint32_t: exact until 2106-02-07 06:28:15, no effect at 2^31 (C20_tv_sec_width); setTimezone(minutes) with |minutes| > 35791394 overflows int (undefined behaviour) and is not exercised',
+               'DST is out of scope: the alarm works with one explicit offset (setTimezone) or the system offset sampled at arming (GetSystemTimezoneOffsetSeconds; harness pins TZ=VRF-3); '
+               'ccronexpr is compiled for UTC (timegm/gmtime_r)',
+               'an alarm is not destroyed from inside its own callback (the code asserts against it); a WorkdayCalendar outlives every WorkdayAlarm initialised with it '
+               '(raw non-owning pointer wp_calendar_; the destructor unsubscribes through it)',
+               'cron: beyond ccronexpr\'s year horizon (CRON_MAX_YEARS_DIFF) "no instant" is the specified answer of both sides; minimality of the transcribed search is not a theorem '
+               '(it is of the reference, and the two are compared on every case)']
 RULE = ('(1) pure: calculateNextLocalTimeSec of weekly/oneshot/workday probes on generated (seconds-of-day, mask, calendar, t) with t at day/week '
         'boundaries +-2 s over the whole uint32 range; (2) histories of up to 4 alarms on the real loop: new/init/tz/enable/disable/refresh/cleanup, '
         'calendar updates, destruction, callback scripts (refresh/disable/enable/cleanup/initialize/setTimezone of any alarm incl. the own one, destroy another alarm '
         'also one due in the same pass, calendar updates from inside callbacks), cron alarms as stateful slots (initc, rejected re-initialisation, Feb-29 chain across the year horizon), '
         'directed boundary families (wall step between arming and firing, the second after a fire, day/week wrap at 00:00:00 / 23:59:59, zones +-12h/+14h/half hours, all-days-off calendar, empty week mask), '
         'clock advances landing at target-1ms/target/target+1ms, monotonic-ahead skew, wall-clock jumps, distances up to > 1 year; (3) cron_next of the '
-        'third-party evaluator against the reference on generated expressions (lists/ranges/steps/*) with t at month/year/leap boundaries; '
+        'third-party evaluator against the reference on generated expressions (lists/ranges/steps/*) with t at month/year/leap boundaries; (4) op cx: raw expression strings (names in any case, ?, hex/octal/signed numbers, white space, field-count and 256-character limits, rejected items) through the real cron_parse_expr at every start alignment, bit sets compared as M lines; (5) width families: tv_sec at 2^31 / 2^32, local time before 1970, zone offsets up to the int limit, seconds_of_day at the int limits; '
         'non-trivial = a callback fired (on time, early or late), or an arm farther than 2^32 ms, or a scan that went past today; distinct = distinct op text')
 
 D = 86400
@@ -190,6 +206,7 @@ def gen_history(rng, nsteps):
                 elif r2 < 0.75 and j != i: acts.append('del%d' % j)
                 elif r2 < 0.80: acts.append('cm%d' % rng.choice([0, 62, 127, rng.randrange(256)]))
                 elif r2 < 0.86: acts.append('cl%d' % j)
+                elif r2 < 0.88 and kind == 'cr': acts.append('ic%d:%s' % (j, hx(rng.choice(['0 0 12 ? * MON-FRI', '*/30 * * * * *', '0 0 0 1 JAN *', '0 0 0 * * 8', '60 * * * * *', '%d %d %d * * ?' % (rng.randrange(60), rng.randrange(60), rng.randrange(24))]))))
                 elif r2 < 0.90: acts.append('tz%d:%d' % (j, rng.choice([-720, -570, -300, 0, 330, 345, 480, 765, 840])))
                 elif r2 < 0.95: acts.append('in%d:%d:%s:%d' % (j, rng.choice([0, 1, D - 1, rng.randrange(D), D]), rng.choice(['1111111', '0000000', '1000001', '111']), rng.randrange(2)))
                 else:
@@ -349,7 +366,7 @@ def gen_boundary(rng):
     elif fam == 8:     # cron alarm on the real loop: Feb 29 chain across the year horizon; a rejected re-initialisation keeps the old expression
         y = rng.choice([2024, 2028, 2092, 2096, 2096, 2000, 1972])
         t0 = days_from_civil(y, 2, 29) * D
-        ops = ['new 0 cr %s' % rng.choice(['-', '-', 'rf0', 'dis0,en0']), 'tz 0 0', 'initc 0 0 0 0 29 2 *', 'wall %d' % ((t0 - 60) * 1000), 'en 0', 'adv 59999', 'adv 1', 'en 0', 'rf 0',
+        ops = ['new 0 cr %s' % rng.choice(['-', '-', 'rf0', 'dis0,en0', 'ic0:%s' % hx('0 0 0 29 FEB ?'), 'dis0,ic0:%s,en0' % hx('0 0 0 1 MAR *'), 'ic0:%s,rf0' % hx('bad')]), 'tz 0 0', 'initc 0 0 0 0 29 2 *', 'wall %d' % ((t0 - 60) * 1000), 'en 0', 'adv 59999', 'adv 1', 'en 0', 'rf 0',
                'initc 0 0 0 0 30 2 *', 'initc 0 0 0 0 32 2 *', 'en 0'] + ['adv 40000000000'] * 4 + ['en 0']
     else:              # cron alarm: fields at their limits, enabled around the instant
         expr = rng.choice(['59 59 23 31 12 *', '0 0 0 1 1 *', '59 59 23 * * 7', '0 0 0 * * 0', '*/59 */59 */23 */31 */12 */7', '0-59/59 0-59/59 0-23/23 1-31/30 1-12/11 0-7/7', '59/1 59/1 23/1 31/1 12/1 7/1'])
@@ -464,13 +481,134 @@ def gen_cron_sparse(rng):
     return ops
 
 
+def hx(expr):
+    return ''.join('%02x' % ord(c) for c in expr) or '-'
+
+
+MONTHS = ['JAN', 'FEB', 'MAR', 'APR', 'MAY', 'JUN', 'JUL', 'AUG', 'SEP', 'OCT', 'NOV', 'DEC']
+DAYS = ['SUN', 'MON', 'TUE', 'WED', 'THU', 'FRI', 'SAT']
+
+
+def cx_num(rng, v, names=None):
+    """one number in one of the spellings strtol(…, 0) / replace_ordinals accept"""
+    r = rng.random()
+    if names and 0 <= v - names[1] < len(names[0]) and r < 0.45:
+        n = names[0][v - names[1]]
+        return rng.choice([n, n.lower(), n.capitalize()])
+    if r < 0.55: return str(v)
+    if r < 0.65: return '0x%x' % v
+    if r < 0.72: return '0X%X' % v
+    if r < 0.82: return '0%o' % v
+    if r < 0.88: return '+%d' % v
+    if r < 0.92: return '00%o' % v
+    return str(v)
+
+
+def cx_field(rng, lo, hi, names=None, q=False):
+    r = rng.random()
+    if r < 0.25: return '*'
+    if q and r < 0.35: return '?'
+    items = []
+    for _ in range(rng.choice([1, 1, 1, 2, 3])):
+        a = rng.randint(lo, hi); b = rng.randint(a, hi)
+        r = rng.random()
+        if r < 0.35: it = cx_num(rng, a, names)
+        elif r < 0.6: it = cx_num(rng, a, names) + '-' + cx_num(rng, b, names)
+        elif r < 0.7: it = '*/' + cx_num(rng, rng.choice([1, 2, 3, 5, 7, 10, 15, 30, 59, 2147483647]))
+        elif r < 0.8: it = cx_num(rng, a, names) + '/' + cx_num(rng, rng.choice([1, 2, 3, 5, 10]))
+        elif r < 0.9: it = cx_num(rng, a, names) + '-' + cx_num(rng, b, names) + '/' + cx_num(rng, rng.choice([1, 2, 3, 4, 7]))
+        else: it = '*'
+        items.append(it)
+    return ','.join(items)
+
+
+CX_BAD_FIELDS = ['a', '1-', '-1', '1--2', '1/2/3', ',', '*/', '/5', '60', '5-*', '*-5', '1-2-3', '0x', '0xg', '08', '09', '1a', '+', '-', '+-1', '--1', '*/0', '*/-1', '*/-0',
+                 '5/0x0', '2147483648', '99999999999999999999', '1 2', '?', '??', '*?', '**', 'L', '1W', '5#2', 'MONDAY', 'JANU', 'SUNMON', 'FOO', 'foo', '1,', ',1', '1,,2',
+                 '7-0', '0-7', '59-0', '0x3c', '074', '073', '+59', '0-0', '*/2147483647', '*/2147483648']
+
+
+def cx_t(rng):
+    r = rng.random()
+    if r < 0.5:
+        y = rng.randint(1970, 2104); m = rng.randint(1, 12)
+        if rng.random() < 0.3: y, m = rng.choice([1972, 2000, 2024, 2096, 2100, 2023]), rng.choice([2, 3])
+        return max(0, min(U32 - 1, days_from_civil(y, m, 1) * D + rng.choice([-2, -1, 0, 1, -D, D - 1, rng.randrange(-3 * D, 3 * D)])))
+    if r < 0.58: return rng.choice([0, 1, 59, 60, 3599, 3600, D - 1, D, 2 ** 31 - 1, 2 ** 31, 2 ** 31 + 1, U32 - 1, U32 - 2, U32 - D, U32 - 366 * D, U32 - 5 * 366 * D])
+    return rng.randrange(0, U32)
+
+
+def gen_cx(rng):
+    """raw expression strings through the real cron_parse_expr (bit sets as M lines) and cron_next: names in any case, `?`, hexadecimal / octal /
+    signed numbers (strtol base 0), white space inside fields, wrong field counts, the 256-character limit, rejected items; the string starts at
+    every alignment 0..7 inside a heap block of exactly its size"""
+    ops = []
+    for _ in range(rng.choice([4, 8, 12])):
+        f = [cx_field(rng, 0, 59), cx_field(rng, 0, 59), cx_field(rng, 0, 23), cx_field(rng, 1, 31, q=True),
+             cx_field(rng, 1, 12, (MONTHS, 1)), cx_field(rng, 0, 7 if rng.random() < 0.3 else 6, (DAYS, 0), q=True)]
+        r = rng.random()
+        if r < 0.25:
+            f[rng.randrange(6)] = rng.choice(CX_BAD_FIELDS)
+        elif r < 0.30:
+            f = f[:rng.choice([0, 1, 5])] if rng.random() < 0.5 else f + ['*'] * rng.choice([1, 2])
+        sep = lambda: rng.choice([' ', ' ', ' ', '  ', ' \t', '\t ', ' \n ', ' \r\v\f '])
+        expr = f[0] if f else ' '
+        for x in f[1:]: expr += sep() + x
+        r = rng.random()
+        if r < 0.15: expr = rng.choice([' ', '  ', '\t']) + expr + rng.choice(['', ' ', ' \n'])
+        elif r < 0.22:            # a tab inside a field is dropped, not a separator
+            k = rng.randrange(len(expr)); expr = expr[:k] + '\t' + expr[k:]
+        elif r < 0.30:            # CRON_MAX_STR_LEN_TO_SPLIT: 255 characters are accepted, 256 are not
+            expr = expr + ' ' * (rng.choice([254, 255, 256, 257, 299]) - len(expr)) if len(expr) < 250 else expr
+        expr = expr[:300] or ' '
+        ops.append('cx %d %s %d' % (rng.randrange(8), hx(expr), cx_t(rng)))
+    return ops
+
+
+def gen_width(rng):
+    """width / sign boundaries (tools/narrowing/C20.txt): tv_sec at 2^31 and 2^32 (stored into uint32_t: alarm.cpp:38/50), local seconds wrapping
+    below 0 and above 2^32 (uint32 + int: alarm.cpp:192/198), time-zone offsets up to the int limit, seconds_of_day at the int limits"""
+    fam = rng.randrange(6)
+    kind = rng.choice(['wk', 'wd', 'os', 'cr'])
+    sod = rng.choice([0, 1, D - 1, 43200, rng.randrange(D)])
+    a = {'kind': kind, 'sod': sod, 'mask': 127, 'wd': True}
+    pre = ['calmask 127'] if kind == 'wd' else []
+    if fam == 0:      # wall clock crosses 2^31 s (2038-01-19 03:14:08) between arming and firing
+        w0 = (2 ** 31 - rng.choice([1, 2, 60, 3600, D])) * 1000 + rng.choice([0, 500, 999])
+        ops = pre + ['new 0 %s' % kind, 'tz 0 %d' % rng.choice([0, 480, -300]), init_line(0, a), 'wall %d' % w0, 'en 0', 'adv %d' % rng.choice([999, 1000, 2000, 3600000]),
+                     'adv %d' % (D * 1000), 'rf 0', 'adv %d' % (D * 1000)]
+    elif fam == 1:    # wall clock near / across 2^32 s (2106-02-07 06:28:16): tv_sec no longer fits the uint32_t
+        w0 = (U32 - rng.choice([1, 2, 60, 3600, D, 2 * D, 8 * D, 9 * D, 367 * D, 368 * D])) * 1000 + rng.choice([0, 999])
+        ops = pre + ['new 0 %s' % kind, 'tz 0 %d' % rng.choice([0, 0, 480, -300]), init_line(0, a), 'wall %d' % w0, 'en 0', 'adv 1000', 'adv %d' % (D * 1000), 'rf 0',
+                     'adv %d' % (7 * D * 1000), 'dis 0', 'en 0', 'adv %d' % (D * 1000), 'wall %d' % ((U32 + rng.choice([0, 1, D, 100 * D])) * 1000), 'en 0', 'rf 0', 'adv %d' % (D * 1000)]
+    elif fam == 2:    # local time before 1970: UTC in the first hours of the epoch with a negative zone (uint32 wrap of the local start)
+        z = rng.choice([-1, -60, -300, -720, -1440, -100000])
+        w0 = rng.choice([0, 1, 59, 3600, -z * 60 - 1, -z * 60, -z * 60 + 1, rng.randrange(0, 2 * D)]) * 1000
+        ops = pre + ['new 0 %s' % kind, 'tz 0 %d' % z, init_line(0, a), 'wall %d' % max(0, w0), 'en 0', 'adv 1000', 'adv %d' % (D * 1000), 'rf 0', 'adv %d' % (D * 1000)]
+    elif fam == 3:    # time-zone offsets beyond +-24 h up to the int limit of minutes*60
+        z = rng.choice([1441, -1441, 2880, -2880, 100000, -100000, 35791394, -35791394, 35791393, 12345678, -12345678])
+        day = rng.randrange(1000, 40000)
+        ops = pre + ['new 0 %s tz0:%d,rf0' % (kind, rng.choice([0, -z, z // 2])), 'tz 0 %d' % z, init_line(0, a), 'wall %d' % ((day * D + rng.randrange(D)) * 1000), 'en 0', 'adv %d' % (D * 1000),
+                     'tz 0 %d' % (-z), 'rf 0', 'adv %d' % (D * 1000), 'adv %d' % (D * 1000)]
+    elif fam == 4:    # seconds_of_day at the int limits / just outside [0, 86400): rejected, state unchanged
+        bad = rng.choice([D, D + 1, -1, 2147483647, -2147483648, 2147483646, -2147483647, 65536, 65535 + D, 32768 + D])
+        ops = ['new 0 wk in0:%d:1111111:1' % bad, 'init 0 %d 1111111 1' % bad, 'en 0', 'init 0 %d 1111111 1' % sod, 'en 0', 'init 0 %d 1111111 1' % bad, 'adv %d' % (D * 1000), 'dis 0',
+               'init 0 %d 1111111 1' % bad, 'en 0', 'wk %d 1111111 %d' % (max(0, bad), rng.randrange(U32)), 'os %d %d' % (max(0, bad), rng.randrange(U32))]
+    else:             # cron alarm with a raw expression string (names, ?), re-initialised while idle / running / from a rejected string
+        good = rng.choice(['0 0 12 ? * MON-FRI', '*/20 30 8 1,15 JAN,jul *', '0 0 0 ? feb sun', '59 59 23 31 DEC ?', '0x0 010 0xC * * 0-7'])
+        badx = rng.choice(['0 0 12 ? * MON-FUN', '* * * * *', '* * * * * * *', '60 * * * * *', '0 0 0 * JANU *', ' '])
+        day = rng.randrange(1000, 47000)
+        ops = ['new 0 cr', 'tz 0 %d' % rng.choice([0, 480, -300]), 'initx 0 %s' % hx(badx), 'en 0', 'initx 0 %s' % hx(good), 'wall %d' % ((day * D + rng.randrange(D)) * 1000), 'en 0',
+               'initx 0 %s' % hx(good), 'adv %d' % (D * 1000), 'dis 0', 'initx 0 %s' % hx(badx), 'en 0', 'adv %d' % (31 * D * 1000), 'adv %d' % (366 * D * 1000)]
+    return ops
+
+
 def gen(rng, tier):
     n = 250 if tier == 'quick' else 4000
     # malformed stream: both sides must answer bad-op
     yield ['wk 1 1111111', 'wk x 1111111 5', 'wk 1 1111112 5', 'wk 1 1111111 4294967296', 'os 1', 'wd 1 2 62 - 5', 'wd 1 1 256 - 5',
            'wd 1 1 62 5:2 5', 'wd 1 1 62 5:1, 5', 'new 4 wk', 'new 0 cron', 'en 0', 'new 0 wk', 'new 0 wk', 'init 0 1 1111111', 'init 0 abc 1111111 1',
            'tz 0 1441', 'tz 0 -1441', 'tz 0 05', 'adv 007', 'new 1 wk cl9', 'new 1 wk tz0', 'new 1 wk tz0:1441', 'new 1 wk in0:5:1111111', 'new 1 wk in0:5:2:1', 'new 1 cron', 'initc 0 * * * * *', 'initc 9 * * * * * *', 'initc 0 * * * * * MON', 'new 1 wk del1', 'new 1 wk rf9', 'new 1 wk rf0,,rf0', 'new 1 wk cs5:1+', 'cron * * * * *  5',
-           'cron * * * * * * x', 'cron 08 * * * * * 5', 'cron 1-2-3 * * * * * 5', 'cron 1//2 * * * * * 5', 'cron */x * * * * * 5', 'cron , * * * * * 5', 'cron MON * * * * * 5', 'del 2', 'adv -1', 'adv 40000000001', 'wall 4294967296000', 'calmask 256', 'calsp 5', 'frob', 'dis 3', 'rf 2', 'cb 1']
+           'cron * * * * * * x', 'cron 08 * * * * * 5', 'cron 1-2-3 * * * * * 5', 'cron 1//2 * * * * * 5', 'cron */x * * * * * 5', 'cron , * * * * * 5', 'cron MON * * * * * 5', 'cx 8 2a 5', 'cx 0 2 5', 'cx 0 00 5', 'cx 0 80 5', 'cx 0 zz 5', 'cx 0 - 5', 'cx 0 2a 4294967296', 'initx 0 zz', 'initx 9 2a', 'new 1 cr ic0', 'new 1 cr ic0:zz', 'new 1 cr ic9:2a', 'tz 0 35791395', 'tz 0 -35791395', 'init 0 2147483648 1111111 1', 'init 0 -2147483649 1111111 1', 'del 2', 'adv -1', 'adv 40000000001', 'wall 4294967296000', 'calmask 256', 'calsp 5', 'frob', 'dis 3', 'rf 2', 'cb 1']
     # directed
     yield ['wk 36000 1111111 1700000000', 'wk 0 0000000 1700000000', 'wk 86399 0000100 1699999999', 'os 0 86399', 'os 0 86400',
            'wd 30600 1 62 - 1700000000', 'wd 30600 1 0 - 1700000000', 'wd 0 1 0 20042:1 1700000000', 'wd 0 1 0 20043:1 1700000000']
@@ -505,11 +643,15 @@ def gen(rng, tier):
         yield gen_cron(rng)
     for _ in range(n // 2):
         yield gen_cron_sparse(rng)
+    for _ in range(n // 2):
+        yield gen_cx(rng)
+    for _ in range(n // 3):
+        yield gen_width(rng)
 
 
 def nontrivial(ops, model_lines):
     tags = ' '.join(l for l in model_lines if l.startswith('B '))
-    keys = ('cron-none-year-horizon', 'cron-4-years', 'cron-years', 'cron-enable', 'fire-', 'arm-far', 'rearm-far', 'wk-week', 'wd-week', 'wd-far', 'wd-weeks', 'os-week', 'cron-month', 'cron-year', 'cron-day', 'destroy-subscribed', 'script-run')
+    keys = ('cx-next', 'cx-none', 'initx-ok', 'cron-none-year-horizon', 'cron-4-years', 'cron-years', 'cron-enable', 'fire-', 'arm-far', 'rearm-far', 'wk-week', 'wd-week', 'wd-far', 'wd-weeks', 'os-week', 'cron-month', 'cron-year', 'cron-day', 'destroy-subscribed', 'script-run')
     return 1 if any(k in tags for k in keys) else None
 
 
@@ -522,11 +664,15 @@ def fingerprint(ops, d):
 LEVEL_TEXT = ('Lean 4 theorems over a model of the alarm module: the next-instant computation of weekly / one-shot / workday alarms returns the '
               'EARLIEST matching instant strictly after t for every t, seconds-of-day, mask and calendar (367-day scan bound explicit, counterexample '
               'beyond it); time-zone round trip; armed delay = exact wall-clock distance in ms for every distance (64-bit conversion; the 32-bit '
-              'conversion of the unpatched tree is refuted by a concrete witness); targets strictly increase across re-arms even on early wake-ups; '
-              'one-shot fires once per enable; a disabled alarm has no armed timer.  Tied to the real code on every run by differential execution '
-              '(probe subclasses + real alarms on the real loop under virtual wall/monotonic clocks, ASan+UBSan)')
+              'conversion of the unpatched tree is refuted by a concrete witness); targets strictly increase across re-arms even on early wake-ups and wall-clock jumps; '
+              'one-shot fires once per enable; a disabled alarm has no armed timer; once per instant over every scripted world execution.  Cron: ccronexpr itself is '
+              'transcribed (parser on raw bytes + cron_next search over struct tm/timegm) and proved sound - every accepted expression has non-empty field sets, every '
+              'returned instant is > t and matches all six fields - next to a reference proved to return the EARLIEST match (with the year horizon).  Tied to the real code on every run by '
+              'differential execution (probe subclasses + real alarms on the real loop under virtual wall/monotonic clocks, direct cron_parse_expr calls, ASan+UBSan)')
 LEVEL_NOTE = ('trusted: Lean kernel, hand-written model + trace-acceptor tie (coverage bounded by the generator, measured), C02 timer semantics, clock '
-              'interposition; PARTIAL: the cron alarm uses the third-party evaluator ccronexpr, tied by correspondence only to a proved reference semantics; '
-              'theorems exclude the last 368 days of the uint32 epoch range and local times before 1970')
+              'interposition, glibc timegm/gmtime_r = the proved proleptic Gregorian functions (compared on every cron case); PARTIAL: minimality of the transcribed ccronexpr search '
+              'is proved for the reference only (transcription = reference is checked on every case, not a theorem; fuel sufficiency open); the weekly/one-shot/workday theorems '
+              'exclude local computations that wrap 2^32 (last 9 / 368 days before 2106-02-07) and local times before 1970 - both now with counterexample theorems saying exactly '
+              'what the code does there; gettimeofday failure is not injected')
 TECHNIQUE = 'Lean 4 proofs (earliest-instant characterisation, arming arithmetic, state-machine invariants) + model/implementation correspondence check'
 DESIGN_REF = 'DESIGN.md §6 C20, §7 row 16'
